@@ -134,6 +134,9 @@ def chained_and_near_miss(rng, env):
     return out
 
 
+ck_note_singular = []     # exactly singular maps for which inverse() nevertheless returned a map
+
+
 def gen_op(rng, env, maxdim):
     """Returns (coq_op, callable producing impl result, oracle(result) -> None|str, kind)"""
     from nipy.core.reference import coordinate_map as cmod
@@ -287,11 +290,19 @@ def gen_op(rng, env, maxdim):
         if inv is None:
             return None
         Minv = np.asarray(inv.affine, dtype=float)
+        # the property speaks of maps that HAVE an inverse: decide that exactly (integer matrix, exact determinant).
+        # numpy.linalg.inv does not always raise on an exactly singular matrix (rounding), and nipy then returns
+        # a meaningless "inverse"; that is outside the property's quantifier, so it is only counted.
+        import sympy
+        if nin != nout or sympy.Matrix(np.asarray(a.affine[:-1, :-1]).astype(int).tolist()).det() == 0:
+            ck_note_singular.append(caff(a))
+            return None
         if np.max(np.abs(Minv - np.round(Minv))) > 1e-9:
             # non-integer inverse: round trip oracle only (no model step)
             x = rng.integers(-5, 6, nin).astype(float)
-            if not np.allclose(inv(call(a, x)), x, atol=1e-8):
-                return ("FAIL", "inverse/round-trip")
+            if not np.allclose(np.asarray(inv(call(a, x)), dtype=float), x, atol=1e-8):
+                return ("FAIL", "inverse/round-trip", {"map": caff(a), "x": [int(v) for v in x], "inverse_matrix": Minv.tolist(),
+                                                      "got": np.asarray(inv(call(a, x)), dtype=float).tolist()})
             return None
         Mi = np.round(Minv).astype(np.int64)
 
@@ -897,7 +908,7 @@ def run(ck):
             if g is None:
                 continue
             if g[0] == "FAIL":
-                ck.fail(g[1], "inverse round trip failed on the implementation", {"program": descr})
+                ck.fail(g[1], "inverse round trip failed on the implementation", {"program": descr, "detail": g[2] if len(g) > 2 else None})
                 continue
             cop, f, oracle, kind = g
             try:
@@ -953,7 +964,11 @@ def run(ck):
             if not ok:
                 ck.fail("model-vs-impl/apply", "model and implementation disagree on a point evaluation", {"op": m[0]})
                 break
-    ck.section("programs", programs=len(terms), point_evaluations=len(pterms))
+    ck.section("programs", programs=len(terms), point_evaluations=len(pterms),
+               exactly_singular_maps_for_which_inverse_returned_a_map=len(ck_note_singular))
+    if ck_note_singular:
+        ck.note("inverse() returned a map for %d exactly singular integer matrices (numpy.linalg.inv did not raise); "
+                "no inverse exists there, so the round-trip clause does not apply: e.g. %s" % (len(ck_note_singular), ck_note_singular[0][:300]))
     cmaps(ck)
     axes(ck)
     batches(ck)
